@@ -32,19 +32,20 @@ fn variants_exhaustive(c: CompressionType) {
     }
 }
 
+/// the fields are printed from `values()`; the last field also demands that the single accessors agree with the tuple
 fn evr_obs(p: &Evr, orig: &Evr) -> String {
-    format!("{},{},{},{}", h(p.epoch()), h(p.version()), h(p.release()), p == orig)
+    let (e, v, r) = p.values();
+    let same = (p.epoch(), p.version(), p.release()) == (e, v, r);
+    format!("{},{},{},{}", h(e), h(v), h(r), p == orig && same)
 }
+/// likewise with `Nevra::values()`, and `Nevra::evr()` must be the EVR made of the same three fields
 fn nevra_obs(p: &Nevra, orig: &Nevra) -> String {
-    format!(
-        "{},{},{},{},{},{}",
-        h(p.name()),
-        h(p.epoch()),
-        h(p.version()),
-        h(p.release()),
-        h(p.arch()),
-        p == orig
-    )
+    let (n, e, v, r, a) = p.values();
+    let same = (p.name(), p.epoch(), p.version(), p.release(), p.arch()) == (n, e, v, r, a)
+        && p.evr().values() == (e, v, r)
+        && *p.evr() == Evr::new(e, v, r)
+        && p.evr() == orig.evr();
+    format!("{},{},{},{},{},{}", h(n), h(e), h(v), h(r), h(a), p == orig && same)
 }
 fn comp_obs(s: &str) -> String {
     match CompressionType::from_str(s) {
